@@ -15,3 +15,10 @@ func ZZ_C09_Broker() {
 	server.ZZAliasFactory = fifo.New // the engine initialises packages on first use: a blank import registers nothing
 	server.ZZC09Broker()
 }
+
+// ZZ_C20_Restart: entry of the C20 restart harness (same wiring).
+func ZZ_C20_Restart() {
+	server.ZZRedisFactory = persistence.ZZNewRedis
+	server.ZZAliasFactory = fifo.New
+	server.ZZC20Restart()
+}
